@@ -67,3 +67,4 @@ package streams
 //@ func (*Stdin).GetDataType [C02 C19 C32]
 //@   requires stdin != nil && stdin.ctx != nil
 //@   ensures result != ""
+//@   ensures imp(old(stdin.dataType) != "", result == old(stdin.dataType))
